@@ -15,8 +15,11 @@ def spec():
         "Shape": {"oneOf": [ref("Circle"), ref("Square")]},
     }
 
-    def op(oid, responses, method="get"):
-        return {method: {"operationId": oid, "responses": responses}}
+    def op(oid, responses, method="get", tag=None):
+        o = {"operationId": oid, "responses": responses}
+        if tag:
+            o["tags"] = [tag]
+        return {method: o}
 
     paths = {
         "/item": op("getItem", {"200": js(ref("Item"))}),
@@ -34,7 +37,7 @@ def spec():
         "/maybe": op("maybeItem", {"200": js(ref("Item")), "204": {"description": "nothing"}}),
         "/text": op("getText", {"200": {"description": "ok", "content": {"text/plain": {"schema": st}}}}),
         "/blob": op("getBlob", {"200": {"description": "ok", "content": {"application/octet-stream": {"schema": {"type": "string", "format": "binary"}}}}}),
-        "/either": op("getEither", {"200": {"description": "ok", "content": {"application/json": {"schema": ref("Item")}, "text/plain": {"schema": st}}}}),
+        "/either": op("getEither", {"200": {"description": "ok", "content": {"application/json": {"schema": ref("Item")}, "text/plain": {"schema": st}}}}, tag="solo"),  # alone in its module: nothing else imports what its handler needs
         "/dflt": op("getWithDefault", {"200": js(ref("Item")), "default": js(ref("Err"), "err")}),
         "/shape": op("getShape", {"200": js(ref("Shape"))}),
     }
